@@ -117,4 +117,30 @@ example : parseSpec 63 ("1".toUTF8.toList.map (·.toNat)) = none := by decide +k
 example : parseSpec 62 ("zZ".toUTF8.toList.map (·.toNat)) = some (61 * 62 + 35) := by decide +kernel
 example : parseSpec 36 ("zZ".toUTF8.toList.map (·.toNat)) = some (35 * 36 + 35) := by decide +kernel
 
+/-- mpz_get_str (and the digits mpz_out_str writes) for every legal base 2..62, -2..-36 and every integer:
+    exactly an optional `-` followed by the digits of |x| in the documented alphabet, most significant
+    first, no leading zero, `"0"` for zero.  (mpn_get_str: basecase and power-of-two paths as modelled from
+    the C; the divide-and-conquer path, ≥ GET_STR_PRECOMPUTE_THRESHOLD limbs, is taken at specification level.) -/
+theorem mpz_get_str_spec (base : Int) (hb : LegalOutBase base) (x : Int) :
+    mpz_get_str base x = some (getStrSpec base x) :=
+  mpz_get_str_spec_of bases_table_ok.1 bases_table_ok.2.1 base hb x
+
+example : mpz_get_str (-16) (-255) = some [45, 70, 70] := by decide +kernel
+example : getStrSpec 62 (61 * 62 + 35) = [122, 90] := by decide +kernel
+
+/-- Round trip: for every legal output base and every integer, what mpz_get_str writes is accepted by
+    mpz_set_str in base |base| and converts back to exactly the same integer — stated both for the
+    specification (`parseSpec (getStrSpec …)`) and for the two models. -/
+theorem roundtrip (base : Int) (hb : LegalOutBase base) (x : Int) :
+    parseSpec (base.natAbs : Int) (getStrSpec base x) = some x ∧
+    ∃ s, mpz_get_str base x = some s ∧ mpz_set_str (base.natAbs : Int) s = some x := by
+  have h1 := parse_getStrSpec base hb x
+  refine ⟨h1, getStrSpec base x, mpz_get_str_spec base hb x, ?_⟩
+  have hb2 : 2 ≤ base.natAbs := by unfold LegalOutBase at hb; omega
+  rw [mpz_set_str_eq_parse _ (by omega) _ (getStrSpec_bytes base hb x)]
+  exact h1
+
+example : mpz_get_str (-36) (-1295) = some [45, 90, 90] ∧ mpz_set_str 36 [45, 90, 90] = some (-1295) := by
+  decide +kernel
+
 end Mpir.Radix
